@@ -1337,4 +1337,29 @@ theorem parseUInt_plus_digits (w d : Nat) (r : Bytes) :
   simp only [parseUInt]
   cases h : decAcc (d :: r) 0 <;> simp
 
+/-! ### Canonical query spelling; boundary characters -/
+
+theorem qCanon_ok (bs : Bytes) (h : IsBytes bs) : ∀ c ∈ qCanon bs, c.okKey = true := by
+  intro c hc
+  simp only [qCanon, List.mem_map] at hc
+  obtain ⟨b, hb, rfl⟩ := hc
+  split
+  · rename_i hu
+    simp only [unreserved, Bool.or_eq_true, Bool.and_eq_true, decide_eq_true_eq, beq_iff_eq] at hu
+    simp only [QByte.okKey, Bool.and_eq_true, bne_iff_ne, ne_eq]
+    omega
+  · simp [QByte.okKey, h b hb]
+
+theorem qMeant_qCanon (bs : Bytes) : qMeant (qCanon bs) = bs := by
+  induction bs with
+  | nil => rfl
+  | cons b bs ih =>
+    simp only [qCanon, qMeant, List.map_cons] at ih ⊢
+    rw [ih]; split <;> rfl
+
+theorem bchar_quotable (c : Nat) (h : isBChar c = true) : (isQuotable c && c != 34) = true := by
+  simp only [isBChar, Bool.or_eq_true, Bool.and_eq_true, decide_eq_true_eq, beq_iff_eq] at h
+  simp only [isQuotable, Bool.and_eq_true, decide_eq_true_eq, bne_iff_ne, ne_eq]
+  omega
+
 end Dropshot.Extract
